@@ -1295,7 +1295,19 @@ func runC13(r *Run, rng *Rng, replay string) {
 	c13sinfoCases(r, rng, thorough)
 	mark("sinfo")
 	c13kdCases(r, rng, pws, thorough)
+	for _, kb := range []int{128, 192, 256} {
+		c13stdsyn(r, kb, 0, int(r.Seed)%200)
+		c13stdsyn(r, kb, 5000+kb, 3)
+		c13stdsyn(r, kb, 17, 4)
+	}
 	mark("kd")
+	c13conc(r, r.Seed)
+	if thorough {
+		for i := uint64(1); i <= 5; i++ {
+			c13conc(r, r.Seed*10+i)
+		}
+	}
+	mark("conc")
 	for i, k := range c13openKinds {
 		c13openmap(r, k, uint64(i)+r.Seed*100)
 	}
@@ -1376,6 +1388,16 @@ func c13replay(r *Run, rng *Rng, path string) {
 			if len(w) == 3 {
 				v := ints(w[1:])
 				c13agilen(r, v[0], v[1])
+			}
+		case "stdsyn":
+			if len(w) == 4 {
+				v := ints(w[1:])
+				c13stdsyn(r, v[0], v[1], v[2])
+			}
+		case "conc":
+			if len(w) == 2 {
+				n, _ := strconv.ParseUint(w[1], 10, 64)
+				c13conc(r, n)
 			}
 		case "kds":
 			if len(w) == 4 {
